@@ -133,7 +133,7 @@ def cont_lines(case, ver):
     return [c for c in case["conts"] if not (ver == "gfa2" and c.get("v1only"))]
 
 
-def gfa_text(case, ver, order=None, spell=None):
+def gfa_text(case, ver, order=None, spell=None, internals=False):
     """The GFA1 / GFA2 text of an enumerated case (list of lines).  A dovetail between the ends
     (n1,t1) and (n2,t2) is written from n1 to n2: leaving n1 through R is n1+, entering n2
     through L is n2+.  TraceGraphOps re-derives the graph from gfapy's own rendering of the
@@ -186,6 +186,9 @@ def gfa_text(case, ver, order=None, spell=None):
         out.append("\t".join(f + c["tags"] + idtag))
     for name, steps, ovs in case.get("paths", []):
         out.append("\t".join(["P", name, ",".join(steps), ",".join(ovs)]))
+    if internals and ver == "gfa2":                # internal overlaps (MC_Multiply), field by field
+        for f in case.get("internals", []):
+            out.append("\t".join(f))
     for f in case.get("extra", []):                # dependants (MC_LinearPaths, profile 6), field by field
         out.append("\t".join(f))
     return out
@@ -672,7 +675,8 @@ def mc_multiply(nseg, maxlinks, lawlinks, name):
                                       twin=l[7]) for l in v[3]],
                           conts=[dict(n1=c[0], o1=c[1], n2=c[2], o2=c[3], pos=c[4], ov=c[5], tags=list(c[6]),
                                       eid=c[7], v1only=c[8]) for c in v[4]],
-                          paths=[[p_[0], list(p_[1]), list(p_[2])] for p_ in v[5]], opt=v[7]))
+                          paths=[[p_[0], list(p_[1]), list(p_[2])] for p_ in v[5]], opt=v[7],
+                          internals=[list(x) for x in v[8]]))
         for i, s in enumerate(cases[-1]["segs"]):
             s["sline"] = 1 if (i + 1) in v[6] else 0
     if st is None or len(cases) != st[1]:
@@ -692,7 +696,7 @@ def run_c15(job, pool=None):
     gfapy = _load_gfapy()
     signal.signal(signal.SIGVTALRM, _alarm)
     case, ver, a = job["case"], job["ver"], job["arg"]
-    text = gfa_text(case, ver, job.get("order"), job.get("spell"))
+    text = gfa_text(case, ver, job.get("order"), job.get("spell"), job.get("internals", False))
     pool = pool or GPool()
     uni = _universe(case)
     seg = case["segs"][a["seg"] - 1]["name"]
@@ -740,9 +744,9 @@ def c15_jobs(tier, seed, out=None):
         plh = 1.4                                  # ... in a graph with placeholders (profile 5)
     else:
         shapes, args, given, st = mc_multiply(3, 4, 2, "graphops-mc15")
-        plan = {0: len(args), 1: len(args), 2: len(args), 3: 4, 4: 0.5}
-        fan = {0: 0, 1: 20, 2: 20, 3: 20, 4: 4, 5: 1}
-        plh = 8
+        plan = {0: len(args), 1: len(args), 2: len(args), 3: 3, 4: 0.5}
+        fan = {0: 0, 1: 20, 2: 20, 3: 12, 4: 3, 5: 1}
+        plh = 6
     # argument tuples that multiply (factor >= 2) are what the property is about: weight them
     heavy = [a for a in args if a["k"] >= 2]
     light = [a for a in args if a["k"] < 2]
@@ -780,14 +784,17 @@ def c15_jobs(tier, seed, out=None):
             order = list(range(nl))
             rnd.shuffle(order)                     # the dovetail lines are written in a seeded order
             build = rnd.choice(("vlevel0", "append")) if has_placeholders(c) else ""
+            # internal overlaps (GFA2 only; they need the three segments defined): in half of the texts
+            internals = ver == "gfa2" and all(x["sline"] for x in c["segs"]) and rnd.random() < 0.5
             jobs.append(dict(id="c15-%d" % len(jobs), ver=ver, case=c, arg=a, given=given, order=order,
-                             build=build, spell=spellings(c, ver, rnd)))
+                             build=build, spell=spellings(c, ver, rnd), internals=internals))
         key = "%d%s" % (nl, {4: " (fan)", 5: " (placeholders)", 6: " (placeholders)"}.get(c["prof"], ""))
         per[key] = per.get(key, 0) + len(pick)
     if out is not None:
         out.add_cov(spec_states=st[1], spec_transitions=st[0], argument_tuples=len(args),
                     cases_with_identical_parallel_edges=sum(1 for j in jobs if has_identical_twins(j["case"])),
                     cases_built_with_placeholders=sum(1 for j in jobs if has_placeholders(j["case"])),
+                    cases_with_internal_overlaps=sum(1 for j in jobs if j["internals"]),
                     bounds="3 segments x <= %d dovetails (21 end pairs + 2 parallel twins) x 4 containment options "
                     "x 3 profiles, fans of <= %d dovetails on one segment (11 end pairs, each with a twin of another "
                     "overlap and an identical twin), graphs of <= 2 dovetails with 6 path / missing-segment options "
@@ -835,7 +842,8 @@ def check_c15(out, tier, seed):
         "TLC and the TLA+ semantics of spec/Multiply.tla, Gfa.tla (dovetail ends), TraceGraphOps.tla",
         "harness/project.py + GPool: syntactic abstraction of written lines and object references",
         "graphs of 3 segments, <= 4 dovetails (<= 5 in a fan on one segment, with parallel and repeated links), "
-        "<= 2 containments; placeholders: virtual links of GFA1 paths and one undefined segment; factors -1..3",
+        "<= 3 containments; GFA2 internal overlaps with counts; ordinary tags of every datatype on segments and edges; "
+        "placeholders: virtual links of GFA1 paths and one undefined segment; factors -1..3",
     ]
 
 
@@ -1086,6 +1094,21 @@ def selftest():
                 if ln["p"] == idx + 1:
                     ln["p"] = len(r["pool"])
     mutant("the copy took the name of a placeholder", base15n, "C15.names", same_name)
+    # GFA2: an internal overlap of the segment (not copied, counts not divided); tags of other datatypes
+    g15i = dict(_case([("A", "AACGT", ("ja:J:[1, 2, 3]", "je:J:[]", "ff:f:3")), ("B", "CCG", ()), ("C", "GTTA", ())],
+                      [("A", "R", "B", "L", 1, ("jl:J:[4, 5]",))]),
+                internals=[["E", "*", "A+", "B+", "1", "3", "1", "2", "2M", "RC:i:20"]])
+    base15i = run_c15(dict(id="st15i", ver="gfa2", case=g15i, given=["cp1", "cp2"], internals=True,
+                           arg=dict(seg=1, k=2, policy="off", names="auto")))
+    variants.append(("c15 with an internal overlap and J tags as recorded", base15i, None))
+    mutant("count of an internal overlap divided", base15i, "C15.rest",
+           lambda r: _repoint(r, "m1", lambda x: x["rt"] == "E" and x["cnt"][0] == 20, lambda x: x.update(cnt=[10, -1, -1])))
+    mutant("J array of the copy written as B array", base15i, "C15.copies",
+           lambda r: _repoint(r, "m1", lambda x: x["rt"] == "S" and "*" in x["name"],
+                              lambda x: x.update(otags=["ja:B:C,1,2,3" if t.startswith("ja:") else t for t in x["otags"]])))
+    mutant("J array of a copied edge written as B array", base15i, "C15.edges",
+           lambda r: _repoint(r, "m1", lambda x: x["rt"] == "E" and any("*" in y["id"] for y in x["refs"]),
+                              lambda x: x.update(otags=["jl:B:C,4,5"])))
     recs = [r for _, r, _ in variants]
     for r in recs:
         if "broken" in r:
